@@ -9,7 +9,7 @@ from symv.dense import embed, snapshot
 
 META = {
     "level": "exploration",
-    "level_text": "Conservation monitor over the whole returned dictionary: for every lattice the returned keys are exactly the given edges; every term equals, block for block, the library's local builder called by the monitor with the bond coefficient looked up in either orientation and the on-site coefficients divided by the monitor's own degree count; on-site coefficients read off convention-free diagonal elements (one site singly / doubly occupied, the other empty) and summed over all edges touching a site equal the specified mu and U of that site; |hopping| and the interaction read per bond equal the bond's value. parse_edges_to_site_info: each bond name on exactly its two ends with opposite directions (lower-sorted end non-dual), coordination = degree, shapes/tags consistent. All simple graphs on <=4 labelled sites without isolated vertices are enumerated in both tiers; random graphs on 5-6 sites. Later additions: negative and tuple labels, impurity and staggered on-site patterns, coefficient objects (numpy scalars, 0-d arrays) unchanged, bonds listed under both orientations, dictionaries reused after update.",
+    "level_text": "Conservation monitor over the whole returned dictionary: for every lattice the returned keys are exactly the given edges; every term equals, block for block, the library's local builder called by the monitor with the bond coefficient looked up in either orientation and the on-site coefficients divided by the monitor's own degree count; on-site coefficients read off convention-free diagonal elements (one site singly / doubly occupied, the other empty) and summed over all edges touching a site equal the specified mu and U of that site; |hopping| and the interaction read per bond equal the bond's value. parse_edges_to_site_info: each bond name on exactly its two ends with opposite directions (lower-sorted end non-dual), coordination = degree, shapes/tags consistent. All simple graphs on <=4 labelled sites without isolated vertices are enumerated in both tiers; random graphs on 5-6 sites. Later additions: negative and tuple labels, impurity and staggered on-site patterns, coefficient objects (numpy scalars, 0-d arrays) unchanged, bonds listed under both orientations, dictionaries reused after update. Round 9: unions of cycles, complete graphs, bonds, paths, stars and ladders (4-11 sites, disconnected, piecewise regular, shuffled site numbers).",
     "technique": "runtime monitoring: conservation (sum over edges = specified per-site / per-bond coefficient) + exact differential against the local builder",
     "rule": (
         "one evaluation = one builder call on one lattice (graph x labeling x orientation/order shuffle x coefficient form x model x symmetry), all conservation sums checked. "
